@@ -1,5 +1,6 @@
 import Driver.Util
 import ZxVerif.Model.Z80.RecBus
+import ZxVerif.Extracted.Z80Tables
 /-
 Sub-protocol `C01` (shared by C02 and C03): the Z80 reference model behind a recording bus.
 
@@ -7,6 +8,7 @@ Sub-protocol `C01` (shared by C02 and C03): the Z80 reference model behind a rec
   c <state> <seed> <lines> <bus> <io> <mem>   the same with `Variant.code` (rustzx's MEMPTR arithmetic for LD (nn),A / OUT (n),A)
   n <lines> <bus>                             one more `emulate` from the state left by the previous request
   m <lines> <bus>                             the same with `Variant.code`
+  t                                           the eight flag lookup tables of Extracted/Z80Tables.lean (hex)
 
   <state> = 19 hex tokens: pc sp af bc de hl af' bc' de' hl' ix iy ir mp q lq ff im ap
             ff: bit0 IFF1, bit1 IFF2, bit2 halted, bit3 skip_interrupt; im 0..2; ap 0 none 1 CB 2 DD 3 ED 4 FD
@@ -119,6 +121,11 @@ def handle (s : St) : List String → St × String
   | "c" :: args => load .code args s
   | ["n", lines, busB] => next .hw lines busB s
   | ["m", lines, busB] => next .code lines busB s
+  | ["t"] =>
+    -- the committed copy of the flag lookup tables (Extracted/Z80Tables.lean), for the textual tie
+    let ts := [Extracted.halfCarryAdd, Extracted.halfCarrySub, Extracted.overflowAdd, Extracted.overflowSub,
+               Extracted.parity, Extracted.f3f5, Extracted.szf3f5, Extracted.szpf3f5]
+    (s, String.intercalate " " (ts.map bytesHex))
   | _ => (s, "bad-op")
 
 def proto : Driver.Proto := { σ := St, init := {}, handle := handle }
